@@ -138,7 +138,7 @@ func cmdCheck(args []string) {
 	cfg := propConfigs[*prop]
 	if cfg == nil {
 		fmt.Fprintf(os.Stderr, "no check registered for property %q\n", *prop)
-		os.Exit(2)
+		exit(2)
 	}
 	if *outDir == "" {
 		*outDir = *verifDir
@@ -383,7 +383,7 @@ func (c *checkRun) fatalViolation(name, msg string) {
 	os.WriteFile(path, b, 0o644)
 	c.writeEvidence(nil, 1, []string{msg})
 	fmt.Printf("VIOLATION property=%s replay=%s no-failing-input-found\n", c.prop, path)
-	os.Exit(1)
+	exit(1)
 }
 
 func (c *checkRun) report(cfg *propConfig) {
@@ -516,7 +516,7 @@ func (c *checkRun) report(cfg *propConfig) {
 	fmt.Printf("property %s (%s): %d functions under contract, %d/%d obligations discharged, %d violations, %d known findings, %.1fs\n",
 		c.prop, c.tier, len(c.funcs), ok, total, nviol, len(knownSeen), time.Since(c.start).Seconds())
 	if nviol > 0 {
-		os.Exit(1)
+		exit(1)
 	}
 }
 
